@@ -22,7 +22,8 @@ RULE = ("component ops: one call of HaarConv / FindLocalPeaks / FDRThres / Unify
         "half-sizes 1..64 incl. larger than the signal, malformed peak lists; oracle ops: one seeded noisy profile per "
         "case (1..3 chromosomes, step of 0/-1, 0/+0.585, 0/+1 (haar only) in either order, 100..400 bins a side, flat "
         "controls 100..600 bins, sd 0.01..0.1, weights 0.5..1, random bin sizes and spacing) through do_segmentation "
-        "with 'haar' and 'hmm-germline'. non-trivial = the op's output is non-empty / has a breakpoint; distinct by hash")
+        "with 'haar' and 'hmm-germline' -- SEARCH, NOT PROOF: a failing profile is a real counterexample (VIOLATION with the "
+        "profile as replay), a passing run proves nothing about unseen profiles. non-trivial = the op's output is non-empty / has a breakpoint; distinct by hash")
 EXHAUSTIVE = {"quick": False, "thorough": False}
 ASSUMPTIONS = [
     "PARTIAL: the statistical clause (detection under Gaussian noise after Savitzky-Golay smoothing; pomegranate "
